@@ -31,6 +31,10 @@ type SizeCase struct {
 	// Raw: the WAL runs with a custom codec that stores Data and nothing else, so the listed sizes are the
 	// frame payload lengths themselves, down to 0 (the built-in codec cannot encode fewer than ~20 bytes)
 	Raw bool `json:"raw,omitempty"`
+	// NoGrow (SimFS): while the measured batch is stored the segment file cannot grow beyond its
+	// preallocated size - a WriteAt that runs past it writes what fits and returns io.EOF, as a
+	// full device or a fixed-size file does. The batch is then refused (nothing visible) or stored.
+	NoGrow bool `json:"nogrow,omitempty"`
 }
 
 // rawCodec stores nothing but Data.
@@ -137,6 +141,7 @@ func genSizeCase(real bool) func(t *rapid.T) SizeCase {
 		}
 		c.After = rapid.IntRange(0, 2).Draw(t, "after")
 		c.Raw = rapid.IntRange(0, 3).Draw(t, "raw") == 0
+		c.NoGrow = !real && rapid.IntRange(0, 3).Draw(t, "nogrow") == 0
 		return c
 	}
 }
@@ -191,8 +196,28 @@ func runSize(c SizeCase) (res common.Result) {
 	for _, s := range c.Sizes {
 		batch = append(batch, mk(next+uint64(len(batch)), s))
 	}
+	if c.NoGrow && cfg.FS != nil {
+		limit := int64(c.SegSize)
+		cfg.FS.SetHook(func(ev simfs.Event) (int, error) {
+			if ev.Kind == simfs.KWriteAt && ev.Off+int64(ev.Len) > limit {
+				fit := limit - ev.Off
+				if fit < 0 {
+					fit = 0
+				}
+				return int(fit), io.EOF
+			}
+			return -1, nil
+		})
+		res.Classes = append(res.Classes, "file-cannot-grow")
+	}
 	err = w.StoreLogs(batch)
 	kit.Barrier(w)
+	if c.NoGrow && cfg.FS != nil {
+		cfg.FS.SetHook(nil)
+		if err != nil {
+			res.Classes = append(res.Classes, "short-write-refused")
+		}
+	}
 	if err != nil {
 		// refusing is legal at any size; but then nothing of the batch may be visible
 		res.Classes = append(res.Classes, "batch-refused")
